@@ -2022,18 +2022,20 @@ class Compiler:
         return stream, append
 
     def _enter_assignment(self, names):
-        for name in names:
+        # (the position is part of the backup variable's name: two
+        # names may read the same once mangled)
+        for i, name in enumerate(names):
             yield from template(
                 "BACKUP = get(KEY, __marker)",
-                BACKUP=identifier("backup_%s" % name, id(names)),
+                BACKUP=identifier("backup%d_%s" % (i, name), id(names)),
                 KEY=ast.Constant(str(name)),
             )
 
     def _leave_assignment(self, names):
-        for name in names:
+        for i, name in enumerate(names):
             yield from template(
                 "if BACKUP is __marker: del econtext[KEY]\n"
                 "else:                 econtext[KEY] = BACKUP",
-                BACKUP=identifier("backup_%s" % name, id(names)),
+                BACKUP=identifier("backup%d_%s" % (i, name), id(names)),
                 KEY=ast.Constant(str(name)),
             )
